@@ -13,7 +13,7 @@ inductive J
   | null
   | bool (b : Bool)
   | int (i : Int)
-  | float (tok : String)
+  | float (tok : String) (asInt : Option Int)   -- `asInt`: the value when `float.is_integer()`
   | str (s : String)
   | arr (xs : JL)
   | obj (kvs : JO)
@@ -60,6 +60,10 @@ def getPath? : J → List String → Option J
     | some v => getPath? v ks
     | none => none
 
+def isNull : J → Bool
+  | null => true
+  | _ => false
+
 def isObj : J → Bool
   | obj _ => true
   | _ => false
@@ -73,7 +77,7 @@ def truthy : J → Bool
   | null => false
   | bool b => b
   | int i => i != 0
-  | float tok => !(tok = "0.0" || tok = "-0.0")
+  | float _ asInt => asInt != some 0
   | str s => s != ""
   | arr .nil => false
   | arr _ => true
@@ -104,7 +108,8 @@ def J.pyKey : J → PyKey
   | .null => .none
   | .bool b => .int (if b then 1 else 0)
   | .int i => .int i
-  | .float tok => .float tok
+  | .float tok none => .float tok
+  | .float _ (some i) => .int i
   | .str s => .str s
   | .arr _ => .unhashable
   | .obj _ => .unhashable
